@@ -86,11 +86,29 @@ def rules(chk, db):
                         c = ir.strip_all_casts(init)
                         if c.get('k') == 'call' and c.get('callee') and c['callee']['n'] in storage_fn_names:
                             local[v['id']] = v['n']
+        local['#params'] = {p.get('id') for p in f['params'] if 'nop::Optional<' in p['t'] and p['t'].rstrip().endswith('*')}
         return local
+
+    def is_cached(e):
+        e = ir.strip_all_casts(e)
+        return e.get('k') == 'mem' and ir.strip_all_casts(e.get('b', {})).get('k') == 'this' and 'nop::Optional<' in (e.get('t') or '') and \
+            (e.get('t') or '').rstrip().endswith('*')
+
+    def slot_param(f, e):
+        """index of the pointer-to-slot parameter of a helper that `e` denotes, or None"""
+        e = ir.strip_all_casts(e)
+        if e.get('k') != 'ref':
+            return None
+        for i, p in enumerate(f['params']):
+            if p.get('id') == e.get('id') and 'nop::Optional<' in p['t'] and p['t'].rstrip().endswith('*'):
+                return i
+        return None
 
     def is_slot(e, local):
         e = ir.strip_all_casts(e)
         if e.get('k') == 'ref' and e.get('id') in local:
+            return True
+        if e.get('k') == 'ref' and e.get('id') in local.get('#params', ()):
             return True
         if e.get('k') == 'call' and e.get('callee') and e['callee']['n'] in storage_fn_names:
             return True
@@ -125,6 +143,27 @@ def rules(chk, db):
                     if not (tgt.get('k') == 'un' and tgt['op'] == '*' and is_slot(tgt['e'], local)):
                         continue
                     nwrites += 1
+                    # WHICH slot: an initialising write must address the calling thread's slot - looked up through the storage
+                    # function within the operation - not the pointer the constructing thread cached in the object
+                    if is_cached(tgt['e']):
+                        chk.bad('S3', facts.site(f, c.get('loc')), 'initialising write in %s goes through the slot pointer cached at construction: '
+                                'called from another thread it initialises the constructing thread\'s slot' % f['n'], function=ir.fn_label(f))
+                    pi = slot_param(f, tgt['e'])
+                    if pi is not None:
+                        for g2 in members:
+                            exprs = [y for y in [g2.get('body')] if y] + [i.get('e') for i in g2.get('inits', []) if i.get('e')]
+                            l2 = slot_exprs(g2)
+                            for ex in exprs:
+                                for c2 in ir.calls(ex):
+                                    cal2 = db.callee(g2, c2)
+                                    if cal2 is None or cal2.get('fid') != f.get('fid') or cal2.get('_tu') is not f.get('_tu') or len(c2.get('args', [])) <= pi:
+                                        continue
+                                    a = c2['args'][pi]
+                                    fresh = is_slot(a, {k: v for k, v in l2.items() if k != '#params'}) and not is_cached(a)
+                                    chk.decide(fresh, 'S3', facts.site(g2, c2.get('loc')) + ' slot',
+                                               '%s passes %s to the initialising helper %s' % (
+                                                   g2['n'], 'the calling thread\'s slot (storage function)' if fresh else
+                                                   'the slot pointer cached at construction (the constructing thread\'s slot)', f['n']), function=ir.fn_label(g2))
                     if guards_empty(g, local):
                         chk.ok('S3', facts.site(f, c.get('loc')), 'write to the thread-local slot in %s is guarded by ->empty()' % f['n'])
                     else:
